@@ -25,7 +25,7 @@ const sendResultDeadline = time.Minute // documented retry period of the dealer
 
 func init() {
 	register(&Prop{
-		ID: "C07", Cases: rpcCases(800, 16000), Batch: rpcBatch,
+		ID: "C07", Cases: rpcCases(800, 8000), Batch: rpcBatch,
 		Run: runC07,
 		Rule: "each case: 3 reading sessions (publisher/caller, subscriber/callee, callee serving the stalled callers, all transports) and 1-3 sessions that stop reading after setting up " +
 			"subscriptions (hot topic, wamp. meta topics), registrations and pending calls, with router->client queue sizes 1,2,16,64 and tiny socket buffers; 6-14 rounds of traffic: acknowledged " +
